@@ -431,3 +431,518 @@ func runC13x(c *Ctx) {
 		c.Undecided(pkg+".collectCurrentSnapsAndActions#block-sent", fn.Pos(), "the assignment of CurrentSnap.Block was not found")
 	}
 }
+
+// runC03y: the rule behind known finding F10.
+func runC03y(c *Ctx) {
+	P := c.P
+	c.Rule("C03-R9", "O", "Change.abortTasks: once a pending task has been put on Hold (a ready status) no other task of the same pass goes from a ready status back to an unready one (Done->Undo): in between the change can be seen - and irrevocably marked - ready", 1)
+	at := P.Func("overlord/state.(*Change).abortTasks")
+	setStatus := P.FuncObj("overlord/state.(*Task).SetStatus")
+	var holds, unreadies []ssa.CallInstruction
+	for _, cc := range CallSites(at, setStatus) {
+		switch {
+		case VConstObj(P.Const("overlord/state.HoldStatus"))(cc.Common().Args[1]):
+			holds = append(holds, cc)
+		case VConstObj(P.Const("overlord/state.UndoStatus"))(cc.Common().Args[1]):
+			unreadies = append(unreadies, cc)
+		}
+	}
+	if len(holds) == 0 || len(unreadies) == 0 {
+		c.Undecided("overlord/state.(*Change).abortTasks#ready-then-unready-in-one-pass", at.Pos(), "the Do->Hold and Done->Undo transitions were not found")
+		return
+	}
+	bad := ""
+	for _, h := range holds {
+		for _, u := range unreadies {
+			if r := (ReachQ{Fn: at, From: LocOf(h), Sink: SinkIs(u)}).Run(); r.Found {
+				bad = P.Pos(h.Pos()) + " -> " + P.Pos(u.Pos())
+			}
+		}
+	}
+	c.Check(bad == "", "overlord/state.(*Change).abortTasks#ready-then-unready-in-one-pass", holds[0].Pos(), "every Done->Undo of a pass precedes its Do->Hold transitions", "abortTasks can put a pending task on Hold and afterwards move another task from Done back to Undo ("+bad+"): if those are the only unready tasks the change is marked ready at the first step and detectChangeReady panics ('unexpectedly became unready') at the second")
+}
+
+// runC10y: the rule behind finding F9.
+func runC10y(c *Ctx) {
+	P := c.P
+	pkg := "overlord/snapstate"
+	c.Rule("C10-R9", "G", "finishTaskWithMaybeRestart: when no restart is requested the final status is still recorded before returning, so that it is committed together with the handler's state write (outside preseeding, which never resumes a half-run change)", 1)
+	fn := P.Func(pkg + ".(*SnapManager).finishTaskWithMaybeRestart")
+	setStatus := P.FuncObj("overlord/state.(*Task).SetStatus")
+	fPreseed := P.Field(pkg + ".SnapManager.preseed")
+	preseed := Atom{Name: "m.preseed", Match: func(cd Cond) Pol { return cd.BoolIs(VField(fPreseed)) }}
+	n := 0
+	for _, lf := range ReturnLeaves(fn, 0) {
+		if !IsNilConst(lf.Val) {
+			continue
+		}
+		n++
+		key := fmt.Sprintf("%s.(*SnapManager).finishTaskWithMaybeRestart#plain-success-records-status#%d", pkg, n)
+		var r ReachResult
+		q := ReachQ{Fn: fn, CutEdge: AtomEdges(preseed), CutInstr: func(in ssa.Instruction) bool { _, ok := IsCallTo(in, setStatus); return ok }}
+		if lf.Instr != nil {
+			q.Sink = SinkIs(lf.Instr)
+		} else {
+			from, succ := lf.EdgeFrom, lf.EdgeSucc
+			q.SinkEdge = func(b *ssa.BasicBlock, s int) bool { return b == from && s == succ }
+		}
+		r = q.Run()
+		c.Check(!r.Found, key, lf.Pos(), "SetStatus(status) precedes the plain `return nil`", "finishTaskWithMaybeRestart can return success without a restart and without recording the final status: link-snap then commits the new snap state while still Doing, and a snapd stopped before the task runner marks it Done runs doLinkSnap again on the already-updated state (old-current and friends are overwritten, a later undo 'restores' the new revision): "+P.PathString(r.Path))
+	}
+	if n == 0 {
+		c.Undecided(pkg+".(*SnapManager).finishTaskWithMaybeRestart#plain-success", fn.Pos(), "no plain `return nil` found")
+	}
+}
+
+func runC21x(c *Ctx) {
+	P := c.P
+	c.Rule("C21-R6", "G", "snap-type constraints: only the os and snapd types are spelled \"core\"; $SLOT()/$PLUG() attribute constraints hold only for deeply equal values", 3)
+	cst := P.Func("interfaces/policy.checkSnapType")
+	typeObj := P.FuncObj("snap.(*Info).Type")
+	isType := VRes(0, ToFn(typeObj))
+	isOS := Cmp("type==os", isType, token.EQL, VConstObj(P.Const("snap.TypeOS")))
+	isSnapd := Cmp("type==snapd", isType, token.EQL, VConstObj(P.Const("snap.TypeSnapd")))
+	// the value compared with the listed types
+	var cmpVal ssa.Value
+	for _, rl := range LoopsOver(cst, VParam(cst, 1)) {
+		for _, b := range cst.Blocks {
+			if rl.Body == nil || !rl.Body.Dominates(b) {
+				continue
+			}
+			for _, in := range b.Instrs {
+				if bo, ok := in.(*ssa.BinOp); ok && bo.Op == token.EQL {
+					if Strip(bo.X) == Strip(rl.Elem) {
+						cmpVal = bo.Y
+					} else if Strip(bo.Y) == Strip(rl.Elem) {
+						cmpVal = bo.X
+					}
+				}
+			}
+		}
+	}
+	if cmpVal == nil {
+		c.Undecided("interfaces/policy.checkSnapType#compared-value", cst.Pos(), "the comparison of the snap's type with the listed types was not found")
+	} else {
+		var leaves []FlowPoint
+		phiLeaves(cmpVal, nil, &leaves, map[*ssa.Phi]bool{})
+		for i, lf := range leaves {
+			key := fmt.Sprintf("interfaces/policy.checkSnapType#type-name#%d", i+1)
+			if s, ok := ConstString(lf.Val); ok {
+				c.Check(s == "core", key+"-literal", lf.Pos(), "\"core\"", fmt.Sprintf("unexpected literal %q", s))
+				if lf.EdgeFrom != nil {
+					c.GuardedFlow(key+"-core<=os|snapd", cst, lf, []Clause{{isOS, isSnapd}}, nil)
+				} else {
+					c.Violated(key+"-core<=os|snapd", lf.Pos(), "every snap type is spelled \"core\"")
+				}
+				continue
+			}
+			c.Check(DependsOn(lf.Val, isType) || isType(Strip(lf.Val)) || func() bool {
+				cv, ok := Strip(lf.Val).(*ssa.Convert)
+				return ok && isType(cv.X)
+			}(), key+"-own-name", lf.Pos(), "the snap's own type name", "the name compared with the listed snap types is neither the snap's type nor \"core\"")
+		}
+	}
+	m := P.Func("asserts.evalAttrMatcher.match")
+	deepEqual := P.FuncObj("reflect.DeepEqual")
+	eq := TrueRes("reflect.DeepEqual(v, v1)", true, 0, CallWhere(ToFn(deepEqual), 0, func(v ssa.Value) bool { return ResolvesToParam(v, m, 2) || VParam(m, 2)(v) }))
+	n := 0
+	for _, r := range ReturnsOf(m) {
+		if IsSuccessReturn(r) {
+			n++
+			c.Guarded(fmt.Sprintf("asserts.evalAttrMatcher.match#accepts<=deep-equal#%d", n), m, r, []Clause{{eq}}, nil)
+		}
+	}
+	if n == 0 {
+		c.Undecided("asserts.evalAttrMatcher.match#accepts", m.Pos(), "no accepting return found")
+	}
+}
+
+func runC17x(c *Ctx) {
+	P := c.P
+	pkg := "boot"
+	c.Rule("C17-R7", "G", "the try kernel is (re)pointed whenever the kernel asked for differs from the current one, whatever the boot status already says; a failed modeenv write always fails its caller", 5)
+	snk := P.Func(pkg + ".(*extractedRunKernelImageBootloaderKernelState).setNextKernel")
+	enable := P.TryObj("bootloader.ExtractedRunKernelImageBootloader.EnableTryKernel")
+	filename := P.TryObj("snap.PlaceInfo.Filename")
+	isEnable := func(in ssa.Instruction) bool {
+		cc, ok := in.(ssa.CallInstruction)
+		if !ok {
+			return false
+		}
+		if cc.Common().IsInvoke() {
+			return cc.Common().Method.Name() == "EnableTryKernel" && (enable == nil || cc.Common().Method == enable)
+		}
+		co := CalleeOf(cc)
+		return co != nil && co.Name() == "EnableTryKernel"
+	}
+	isFilename := func(v ssa.Value) bool {
+		cc, _, ok := CallResult(v)
+		if !ok {
+			return false
+		}
+		if cc.Common().IsInvoke() {
+			return cc.Common().Method.Name() == "Filename" && (filename == nil || cc.Common().Method == filename)
+		}
+		co := CalleeOf(cc)
+		return co != nil && co.Name() == "Filename"
+	}
+	same := Cmp("sn.Filename()==currentKernel.Filename()", isFilename, token.EQL, isFilename)
+	found := false
+	for _, b := range snk.Blocks {
+		for _, in := range b.Instrs {
+			if isEnable(in) {
+				found = true
+			}
+		}
+	}
+	if !found {
+		c.Violated(pkg+".setNextKernel#try-kernel-enabled", snk.Pos(), "setNextKernel no longer calls EnableTryKernel")
+	} else {
+		r := ReachQ{Fn: snk, CutInstr: isEnable, CutEdge: AtomEdges(same), Sink: IsSuccessReturn}.Run()
+		c.Check(!r.Found, pkg+".setNextKernel#try-kernel-enabled-unless-same", snk.Pos(), "EnableTryKernel(sn) unless sn is the current kernel", "setNextKernel can succeed for a kernel other than the current one without pointing try-kernel.efi at it (e.g. when kernel_status already is \"try\"): the next boot tries a stale revision: "+P.PathString(r.Path))
+	}
+	// modeenv writes
+	write := P.FuncObj(pkg + ".(*Modeenv).Write")
+	n := 0
+	for _, u := range P.UsesOf(write) {
+		if u.Fn == nil || u.Fn.Pkg == nil || !strings.HasSuffix(u.Fn.Pkg.Pkg.Path(), "/"+pkg) {
+			continue
+		}
+		cc, ok := u.Instr.(ssa.CallInstruction)
+		if !ok {
+			c.Undecided(pkg+".(*Modeenv).Write#used-as-value", write.Pos(), "Modeenv.Write is used other than by a direct call")
+			continue
+		}
+		n++
+		c.CheckErrPropagated(fmt.Sprintf("%s#modeenv-write-failure-propagated@%s", SSAFuncName(u.Fn), calleeOrd(u.Fn, cc, write)), u.Fn, cc, 0, "modeenv.Write")
+	}
+	if n == 0 {
+		c.Undecided(pkg+".(*Modeenv).Write#callers", write.Pos(), "no caller found")
+	}
+}
+
+func runC19x(c *Ctx) {
+	P := c.P
+	pkg := "asserts"
+	c.Rule("C19-R6", "W+S", "a stacked database looks at its nearest layer first (the revision check and Find stop at the first store that has the assertion); every place of the filesystem store that turns a key value into a path component escapes it the same way", 2)
+	ws := P.Func(pkg + ".(*Database).WithStackedBackstore")
+	fBS := P.Field(pkg + ".Database.bs")
+	fStacked := P.Field(pkg + ".Database.stackedOn")
+	sts := StoresToField(ws, fStacked)
+	if len(sts) != 1 {
+		c.Undecided(pkg+".(*Database).WithStackedBackstore#stacked-on", ws.Pos(), fmt.Sprintf("expected one store of stackedOn, found %d", len(sts)))
+	} else {
+		// the slice value: append(<literal starting with db.bs>, db.stackedOn...)
+		first := func(v ssa.Value) ssa.Value {
+			for i := 0; i < 8; i++ {
+				cc, _, ok := CallResult(v)
+				if !ok {
+					break
+				}
+				b, isB := cc.Common().Value.(*ssa.Builtin)
+				if !isB || b.Name() != "append" {
+					break
+				}
+				v = cc.Common().Args[0]
+			}
+			return v
+		}(sts[0].Val)
+		el := VarargElems(first)
+		okFirst := len(el) >= 1 && el[0] != nil && VFieldOf(fBS, VParam(ws, 0))(el[0])
+		c.Check(okFirst, pkg+".(*Database).WithStackedBackstore#nearest-layer-first", sts[0].Pos(), "stackedOn = [db.bs, db.stackedOn...]", "the layers a stacked database falls back to do not start with the database it was stacked on: an older layer shadows a newer one, so Find returns an older revision and Add accepts a revision that does not move forward")
+	}
+	// one escaping function
+	used := map[string]token.Pos{}
+	for _, fn := range P.FuncsIn(pkg) {
+		pos := P.Fset.Position(fn.Pos())
+		if !strings.HasSuffix(pos.Filename, "fsbackstore.go") {
+			continue
+		}
+		for _, b := range fn.Blocks {
+			for _, in := range b.Instrs {
+				if cc, ok := in.(ssa.CallInstruction); ok {
+					if co := CalleeOf(cc); co != nil && co.Pkg() != nil && co.Pkg().Path() == "net/url" && strings.HasSuffix(co.Name(), "Escape") && !strings.Contains(co.Name(), "Unescape") {
+						if _, seen := used[co.Name()]; !seen {
+							used[co.Name()] = cc.Pos()
+						}
+						c.touch(fn)
+					}
+				}
+			}
+		}
+	}
+	var names []string
+	for n := range used {
+		names = append(names, n)
+	}
+	sortStrings(names)
+	c.Check(len(names) == 1, pkg+".filesystemBackstore#one-path-escaping", P.Func(pkg+".(*filesystemBackstore).Search").Pos(), fmt.Sprintf("every key value is escaped with url.%v", names), fmt.Sprintf("key values are turned into path components with different escaping functions %v: Put/Get and Search then disagree on where an assertion with such a key lives", names))
+}
+
+func sortStrings(s []string) {
+	for i := 1; i < len(s); i++ {
+		for j := i; j > 0 && s[j] < s[j-1]; j-- {
+			s[j], s[j-1] = s[j-1], s[j]
+		}
+	}
+}
+
+func runC20x(c *Ctx) {
+	P := c.P
+	pkg := "asserts"
+	c.Rule("C20-R6", "G+W", "assemble accepts only when the declared body-length equals the length of the body found, body or no body; the stream decoder's replacement buffer is never smaller than what was asked for (the size is rounded up)", 2)
+	as := P.Func(pkg + ".assemble")
+	checkInt := P.FuncObj(pkg + ".checkIntWithDefault")
+	lenMatches := Cmp("length==len(body)", VRes(0, ToFn(checkInt)), token.EQL, VLen(VParam(as, 1)))
+	n := 0
+	for _, r := range ReturnsOf(as) {
+		if IsSuccessReturn(r) {
+			n++
+			c.Guarded(fmt.Sprintf("%s.assemble#accepts<=declared-length-matches#%d", pkg, n), as, r, []Clause{{lenMatches}}, nil)
+		}
+	}
+	if n == 0 {
+		c.Undecided(pkg+".assemble#accepts", as.Pos(), "no accepting return found")
+	}
+	pk := P.Func(pkg + ".(*Decoder).peek")
+	newReader := P.FuncObj("bufio.NewReaderSize")
+	calls := CallSites(pk, newReader)
+	if len(calls) == 0 {
+		c.Undecided(pkg+".(*Decoder).peek#buffer-grown", pk.Pos(), "bufio.NewReaderSize not found")
+	}
+	for i, cc := range calls {
+		sz := cc.Common().Args[1]
+		// a quotient of the requested size must be bumped by one before it is multiplied back
+		bad := ""
+		var walk func(v ssa.Value, bumped bool, d int)
+		walk = func(v ssa.Value, bumped bool, d int) {
+			if d > 10 {
+				return
+			}
+			bo, ok := Strip(v).(*ssa.BinOp)
+			if !ok {
+				return
+			}
+			switch bo.Op {
+			case token.QUO:
+				if DependsOn(bo.X, VParam(pk, 1)) && !bumped {
+					bad = "size is divided and multiplied back without adding one: the new buffer can be smaller than the request"
+				}
+			case token.ADD:
+				k, isC := ConstInt(bo.Y)
+				k2, isC2 := ConstInt(bo.X)
+				walk(bo.X, bumped || (isC && k >= 1), d+1)
+				walk(bo.Y, bumped || (isC2 && k2 >= 1), d+1)
+			default:
+				walk(bo.X, bumped, d+1)
+				walk(bo.Y, bumped, d+1)
+			}
+		}
+		walk(sz, false, 0)
+		c.Check(bad == "" && DependsOn(sz, VParam(pk, 1)), fmt.Sprintf("%s.(*Decoder).peek#buffer-not-smaller-than-request#%d", pkg, i+1), cc.Pos(), "rounded up from the requested size", "the replacement buffer of the stream decoder: "+bad)
+	}
+}
+
+func runC14x(c *Ctx) {
+	P := c.P
+	pkg := "overlord/snapstate"
+	c.Rule("C14-R8", "O", "InstallComponents reads the snap's state before the store round trip (which unlocks the state), so that the conflict check can notice that the snap changed meanwhile", 1)
+	ic := P.Func(pkg + ".InstallComponents")
+	get := P.FuncObj(pkg + ".Get")
+	setups := P.FuncObj(pkg + ".componentSetupsForInstall")
+	calls := CallSites(ic, setups)
+	if len(calls) != 1 || len(CallSites(ic, get)) == 0 {
+		c.Undecided(pkg+".InstallComponents#state-read-before-store", ic.Pos(), "expected Get(st, ...) and one componentSetupsForInstall call")
+		return
+	}
+	c.Before(pkg+".InstallComponents#state-read-before-store", ic, SinkCall(get), "Get(st, name, &snapst)", calls[0], nil)
+}
+
+func runC16x(c *Ctx) {
+	P := c.P
+	pkg := "timeutil"
+	c.Rule("C16-R6", "S", "Schedule.Includes and Schedule.Next look at the same windows: both take the clock spans from flattenedClockSpans() (implicit whole-day span for weekday-only timers, repeated spans split into sub-spans), never from the raw ClockSpans field", 2)
+	flat := P.FuncObj(pkg + ".(*Schedule).flattenedClockSpans")
+	fSpans := P.Field(pkg + ".Schedule.ClockSpans")
+	for _, name := range []string{"Includes", "Next"} {
+		fn := P.Func(pkg + ".(*Schedule)." + name)
+		c.touch(fn)
+		uses := len(CallSites(fn, flat)) > 0
+		raw := false
+		for _, b := range fn.Blocks {
+			for _, in := range b.Instrs {
+				if fa, ok := in.(*ssa.FieldAddr); ok && fieldOfAddr(fa) == fSpans {
+					raw = true
+				}
+			}
+		}
+		c.Check(uses && !raw, fmt.Sprintf("%s.(*Schedule).%s#windows-from-flattened-spans", pkg, name), fn.Pos(), "ranges over flattenedClockSpans()", "Schedule."+name+" does not take its windows from flattenedClockSpans() (or also reads the raw ClockSpans field): the window search and the inclusion test then disagree for weekday-only timers and for repeated spans that cross midnight")
+	}
+}
+
+func runC23x(c *Ctx) {
+	P := c.P
+	pkg := "osutil"
+	c.Rule("C23-R6", "W", "managed files are only ever changed by replacing them (AtomicWrite: temporary file + rename) or removing them, never in place; the tree walk of EnsureTreeState visits every directory", 2)
+	inPlace := map[string]bool{"os.Chmod": true, "os.Chown": true, "os.WriteFile": true, "os.Truncate": true, "os.Lchown": true, "io/ioutil.WriteFile": true}
+	n := 0
+	for _, fn := range P.FuncsIn(pkg) {
+		f := P.Fset.Position(fn.Pos()).Filename
+		if !strings.HasSuffix(f, "/syncdir.go") && !strings.HasSuffix(f, "/synctree.go") {
+			continue
+		}
+		n++
+		var bad []string
+		for _, b := range fn.Blocks {
+			for _, in := range b.Instrs {
+				if cc, ok := in.(ssa.CallInstruction); ok {
+					if co := CalleeOf(cc); co != nil && inPlace[co.FullName()] {
+						bad = append(bad, co.FullName())
+					}
+				}
+			}
+		}
+		if len(bad) > 0 {
+			c.touch(fn)
+			c.Violated(SSAFuncName(fn)+"#no-in-place-change", fn.Pos(), fmt.Sprintf("%s changes a managed file in place (%v): the call follows symlinks and hard links, so a file outside the managed set can be modified while the managed entry stays what it was", SSAFuncName(fn), bad))
+		}
+	}
+	c.Check(n > 0, pkg+"#sync-functions", token.NoPos, fmt.Sprintf("%d functions of syncdir.go/synctree.go use no in-place file modification", n), "no function of syncdir.go/synctree.go found")
+	ets := P.Func(pkg + ".EnsureTreeState")
+	skipDir := P.Global("path/filepath.SkipDir")
+	walk := P.FuncObj("path/filepath.Walk")
+	okWalk := false
+	for _, cc := range CallSites(ets, walk) {
+		mc, ok := Strip(cc.Common().Args[1]).(*ssa.MakeClosure)
+		if !ok {
+			continue
+		}
+		cb, _ := mc.Fn.(*ssa.Function)
+		if cb == nil {
+			continue
+		}
+		okWalk = true
+		skips := false
+		for _, lf := range ReturnLeaves(cb, 0) {
+			if VGlobal(skipDir)(lf.Val) {
+				skips = true
+			}
+		}
+		c.touch(cb)
+		c.Check(!skips, pkg+".EnsureTreeState#walk-visits-every-directory", cb.Pos(), "the walk callback never skips a directory", "the tree walk of EnsureTreeState skips some directories: files matching the globs below them are neither synchronised nor removed when synchronisation fails")
+	}
+	if !okWalk {
+		c.Undecided(pkg+".EnsureTreeState#walk", ets.Pos(), "filepath.Walk with a closure was not found")
+	}
+}
+
+func runC18x(c *Ctx) {
+	P := c.P
+	pkg := "asserts"
+	c.Rule("C18-R7", "W+G", "an account key may sign only what matchAgainstConstraints admits (no shortcut in canSign; \"anything goes\" only for a key without constraints); an encoded key or signature is exactly one packet: decodeV1 refuses trailing data and all three decoders go through it", 6)
+	cs := P.Func(pkg + ".(*AccountKey).canSign")
+	mac := P.FuncObj(pkg + ".(*AccountKey).matchAgainstConstraints")
+	for i, lf := range ReturnLeaves(cs, 0) {
+		c.Check(VRes(0, ToFn(mac))(lf.Val), fmt.Sprintf("%s.(*AccountKey).canSign#verdict-of-constraints#%d", pkg, i+1), lf.Pos(), "the verdict of matchAgainstConstraints", "canSign answers without consulting the key's signing constraints")
+	}
+	macf := P.Func(pkg + ".(*AccountKey).matchAgainstConstraints")
+	fMatchers := P.Field(pkg + ".AccountKey.constraintMatchers")
+	noConstraints := Cmp("len(matchers)==0", VLen(func(v ssa.Value) bool { return VField(fMatchers)(v) || DependsOn(v, VField(fMatchers)) }), token.EQL, VConstInt(0))
+	matched := Atom{Name: "m.match(...)==nil", Match: func(cd Cond) Pol {
+		return cd.CmpIs(token.EQL, func(v ssa.Value) bool {
+			cc, _, ok := CallResult(v)
+			if !ok {
+				return false
+			}
+			co := CalleeOf(cc)
+			return co != nil && co.Name() == "match"
+		}, isNilVal)
+	}}
+	n := 0
+	for _, lf := range ReturnLeaves(macf, 0) {
+		if b, ok := ConstBool(lf.Val); ok && b {
+			n++
+			c.GuardedFlow(fmt.Sprintf("%s.(*AccountKey).matchAgainstConstraints#true<=unconstrained|matched#%d", pkg, n), macf, lf, []Clause{{noConstraints, matched}}, nil)
+		}
+	}
+	if n == 0 {
+		c.Undecided(pkg+".(*AccountKey).matchAgainstConstraints#true", macf.Pos(), "no accepting result found")
+	}
+	// exactly one packet
+	dv := P.Func(pkg + ".decodeV1")
+	dvObj := P.FuncObj(pkg + ".decodeV1")
+	rdLen := P.FuncObj("bytes.(*Reader).Len")
+	nothingLeft := Cmp("rd.Len()==0", VRes(0, ToFn(rdLen)), token.EQL, VConstInt(0))
+	n = 0
+	for _, r := range ReturnsOf(dv) {
+		if IsSuccessReturn(r) {
+			n++
+			c.Guarded(fmt.Sprintf("%s.decodeV1#accepts<=nothing-left#%d", pkg, n), dv, r, []Clause{{nothingLeft}}, nil)
+		}
+	}
+	if n == 0 {
+		c.Undecided(pkg+".decodeV1#accepts", dv.Pos(), "no accepting return found")
+	}
+	for _, name := range []string{"decodeSignature", "DecodePublicKey", "decodePrivateKey"} {
+		fn := P.Func(pkg + "." + name)
+		c.touch(fn)
+		c.Check(len(CallSites(fn, dvObj)) == 1, pkg+"."+name+"#through-decodeV1", fn.Pos(), "decodes through decodeV1", name+" does not decode through decodeV1 (which refuses anything but exactly one packet)")
+	}
+}
+
+func runC22x(c *Ctx) {
+	P := c.P
+	pkg := "interfaces"
+	c.Rule("C22-R6", "G", "Repository.disconnect: an entry of a connection index is dropped only when that very entry has become empty (delete(m, k) <= len(m[k]) == 0 for the same m and k)", 2)
+	dis := P.Func(pkg + ".(*Repository).disconnect")
+	n := 0
+	for _, b := range dis.Blocks {
+		for _, in := range b.Instrs {
+			cc, ok := in.(*ssa.Call)
+			if !ok {
+				continue
+			}
+			bi, ok := cc.Call.Value.(*ssa.Builtin)
+			if !ok || bi.Name() != "delete" {
+				continue
+			}
+			m, k := cc.Call.Args[0], cc.Call.Args[1]
+			_, f, isField := FieldLoad(Strip(m))
+			if !isField {
+				continue // delete(r.slotPlugs[slot], plug): removes one connection, not an index entry
+			}
+			n++
+			emptied := Cmp(fmt.Sprintf("len(r.%s[k])==0", f.Name()), VLen(func(v ssa.Value) bool {
+				lk, ok := Strip(v).(*ssa.Lookup)
+				return ok && IsFieldLoad(Strip(lk.X), f) && Strip(lk.Index) == Strip(k)
+			}), token.EQL, VConstInt(0))
+			c.Guarded(fmt.Sprintf("%s.(*Repository).disconnect#index-entry-dropped<=empty:%s", pkg, f.Name()), dis, cc, []Clause{{emptied}}, nil)
+		}
+	}
+	if n < 2 {
+		c.Undecided(pkg+".(*Repository).disconnect#index-entries", dis.Pos(), fmt.Sprintf("expected the two index clean-ups, found %d", n))
+	}
+}
+
+func runC15x(c *Ctx) {
+	P := c.P
+	pkg := "overlord/snapstate"
+	c.Rule("C15-R6", "O", "doInstall forgets the snap-initiated holds on a snap (resetGatingForRefreshed) only after the checks that can still refuse the refresh (running applications) have passed: a refused refresh must not start a new hold episode", 1)
+	di := P.Func(pkg + ".doInstall")
+	reset := P.FuncObj(pkg + ".resetGatingForRefreshed")
+	soft := P.FuncObj(pkg + ".softCheckNothingRunningForRefresh")
+	rs, ss := CallSites(di, reset), CallSites(di, soft)
+	if len(rs) == 0 || len(ss) == 0 {
+		c.Undecided(pkg+".doInstall#holds-reset-after-busy-check", di.Pos(), "resetGatingForRefreshed or softCheckNothingRunningForRefresh not found in doInstall")
+		return
+	}
+	bad := ""
+	for _, r := range rs {
+		for _, s := range ss {
+			if (ReachQ{Fn: di, From: LocOf(r), Sink: SinkIs(s)}).Run().Found {
+				bad = P.Pos(r.Pos()) + " -> " + P.Pos(s.Pos())
+			}
+		}
+	}
+	c.Check(bad == "", pkg+".doInstall#holds-reset-after-busy-check", rs[0].Pos(), "no refusal by the running-applications check can follow the reset", "doInstall drops the holds on the snap and can afterwards still refuse the refresh because the snap is busy ("+bad+"): the holding snap's episode is forgotten although nothing was refreshed, and it gets a fresh maximum hold time")
+}
